@@ -293,6 +293,10 @@ def main():
         try:
             mod = importlib.import_module(cfg["search"][0])
             search_res = getattr(mod, cfg["search"][1])(seed=seed, tier=tier, broken=broken)
+            for wz in search_res.get("found", []):
+                wz.setdefault("seed", seed)
+                wz.setdefault("tier", tier)
+                wz.setdefault("broken_at_search_time", bool(broken))
         except Exception as e:
             traceback.print_exc()
             search_res = dict(found=[], error="%s: %s" % (type(e).__name__, e), evaluations=0)
